@@ -525,8 +525,8 @@ Proof.
   apply flags_okb_iff in Wa2, Wb2. destruct Wa2 as (Ba & _ & _), Wb2 as (Bb & _ & _).
   apply flags_okb_iff. simpl. repeat split; intros H.
   - apply andb_prop in H as [H1 H2]. auto.
-  - unfold up_ok. rewrite R. simpl. unfold le_b. rewrite andb_true_r. exact H.
-  - unfold down_ok. rewrite R. simpl. unfold ge_b. rewrite andb_true_r. exact H.
+  - unfold up_ok. rewrite R. simpl. unfold le_b. rewrite andb_true_r. destruct (value_cmp true va vb); auto; discriminate.
+  - unfold down_ok. rewrite R. simpl. unfold ge_b. rewrite andb_true_r. destruct (value_cmp true va vb); auto; discriminate.
 Qed.
 
 (* ------------------------------------------------------------------ range *)
